@@ -114,3 +114,34 @@ def ref_enc(c, key, blk, tweak=None, dec=False):
         return (RS.dec if dec else RS.enc)(key, blk)
     t = tweak if tweak is not None else bytes(16)
     return (RT.tf_dec if dec else RT.tf_enc)(key, t, blk)
+
+
+def tf_crafted_blocks(c, s):
+    """blocks (computed with the reference Threefish) for which the state right after subkey injection number s has a last
+    word of 0, 1, .., s-1 (the round number just carried it over 2^64), s, 2^64-1, 2^63, or a zero / all-ones first word:
+    word values that no block family reaches by chance.  Each block is verified by running the reference forward."""
+    from mc.refs import skein as RT
+    n = KEYLEN[c]
+    key, tw = expander(n, 71), expander(16, 72)
+    Nw = n // 8
+    base = [int.from_bytes(expander(8, 80 + i), 'little') for i in range(Nw)]
+    out = []
+    lasts = sorted(set(range(0, min(s, 3) + 1)) | {max(s - 1, 0), s, (1 << 64) - 1, (1 << 64) - s if s else 0, 1 << 63})
+    for x in lasts:
+        w = list(base)
+        w[-1] = x
+        out.append(w)
+    for x in (0, (1 << 64) - 1):
+        w = list(base)
+        w[0] = x
+        out.append(w)
+        w = list(base)
+        w[Nw - 2] = x
+        out.append(w)
+    blocks = []
+    for w in out:
+        P = RT.tf_block_reaching(key, tw, s, w)
+        if RT.tf_state_after_injection(key, tw, P, s) != w:
+            raise AssertionError('crafted Threefish block does not reach its internal state')
+        blocks.append(P)
+    return key, tw, blocks
